@@ -209,7 +209,14 @@ class Ctx:
             apath = os.path.join(LEAN, "SfAudit", "Audit_%s.lean" % self.prop)
             with open(apath, "w") as f:
                 f.write(audit)
-            p = build.run(["lake", "env", "lean", apath], cwd=LEAN, check=False, timeout=1800)
+            with build.lean_lock():
+                p = build.run(["lake", "env", "lean", apath], cwd=LEAN, check=False, timeout=1800)
+                if p.returncode != 0 and "depends on axioms" not in p.stdout and "does not depend on any axioms" not in p.stdout:
+                    # nothing at all was printed: the imports could not be loaded (object files being rewritten by a build of another working
+                    # process that did not take this lock, e.g. a manual `lake build`): build once more and ask again before this counts
+                    build.run(["lake", "build"] + list(modules), cwd=LEAN, check=False, timeout=3600)
+                    p = build.run(["lake", "env", "lean", apath], cwd=LEAN, check=False, timeout=1800)
+                    self.notes["audit_retried"] = 1
             cmds.append("cd lean && lake env lean SfAudit/Audit_%s.lean   (#print axioms on every theorem)" % self.prop)
             out = p.stdout
             got = {}
@@ -230,7 +237,8 @@ class Ctx:
                 self.notes["audit_log_tail"] = out[-2000:]
         if ok and self.tier == "thorough":
             for m in modules:
-                p = build.run(["lake", "env", "leanchecker", m], cwd=LEAN, check=False, timeout=3600)
+                with build.lean_lock():
+                    p = build.run(["lake", "env", "leanchecker", m], cwd=LEAN, check=False, timeout=3600)
                 cmds.append("cd lean && lake env leanchecker %s" % m)
                 if p.returncode != 0:
                     failed.append("leanchecker:%s" % m)
